@@ -322,8 +322,124 @@ def case_strategy(draw, tier):
             'entry': entry}
 
 
+CSV_STRINGS = ['a', 'b', 'abc', 'x y', 'k12', 'NA', 'n/a', 'N/A', 'null',
+               'None', 'nan', '#N/A', '-', 'é', 'a,b', 'say "hi"']
+
+
+@st.composite
+def csv_case(draw):
+    """Reference (and sometimes actual) as CSV files read by tdda's default
+    loader, whose documented null markers are the empty field, NaN and NULL
+    - nothing else: 'NA', 'n/a', 'null', 'None' ... are strings."""
+    n = draw(st.integers(1, 5))
+    ncols = draw(st.integers(1, 3))
+    cols = []
+    for i in range(ncols):
+        cells = [draw(st.sampled_from(CSV_STRINGS)) for _ in range(n)]
+        if draw(st.integers(0, 2)) == 0:
+            cells[draw(st.integers(0, n - 1))] = None
+        cols.append({'name': 's%d' % i, 'cells': cells})
+    ids = list(range(1, n + 1))
+    act = [list(c['cells']) for c in cols]
+    edit = draw(st.sampled_from(['identical', 'identical', 'other-string',
+                                 'marker-to-marker', 'to-null', 'from-null']))
+    j, i = draw(st.integers(0, ncols - 1)), draw(st.integers(0, n - 1))
+    old = act[j][i]
+    if edit == 'other-string':
+        act[j][i] = draw(st.sampled_from([x for x in CSV_STRINGS
+                                          if x != old]))
+    elif edit == 'marker-to-marker':
+        cols[j]['cells'][i] = 'NA'
+        act[j][i] = draw(st.sampled_from(['n/a', 'null', 'None', 'N/A']))
+    elif edit == 'to-null':
+        if old is None:
+            cols[j]['cells'][i] = 'NA'
+        act[j][i] = None
+    elif edit == 'from-null':
+        cols[j]['cells'][i] = None
+        act[j][i] = draw(st.sampled_from(['NA', 'null', 'a']))
+    return {'csv': {'names': [c['name'] for c in cols], 'ids': ids,
+                    'ref': [c['cells'] for c in cols], 'act': act,
+                    'edit': edit,
+                    'actual_as': draw(st.sampled_from(['frame', 'csv']))}}
+
+
+def valid_csv(c):
+    try:
+        k = len(c['names'])
+        n = len(c['ids'])
+        ok = lambda v: v is None or (isinstance(v, str) and v != ''
+                                     and v not in ('NaN', 'NULL')
+                                     and '\n' not in v and '\r' not in v
+                                     and '\\' not in v)
+        return (1 <= k <= 4 and n >= 1 and len(c['ref']) == k
+                and len(c['act']) == k
+                and all(len(x) == n and all(ok(v) for v in x)
+                        for x in c['ref'] + c['act'])
+                and c['actual_as'] in ('frame', 'csv'))
+    except Exception:
+        return False
+
+
+def run_csv(case, ctx):
+    import csv as csvmod
+    import pandas as pd
+    from tdda.referencetest.referencetest import ReferenceTest
+    out = Outcome()
+    c = case['csv']
+    d = ctx.fresh_dir()
+
+    def write(path, columns):
+        with open(path, 'w', encoding='utf-8', newline='') as f:
+            w = csvmod.writer(f)
+            w.writerow(['id'] + c['names'])
+            for r in range(len(c['ids'])):
+                w.writerow([c['ids'][r]] + ['' if col[r] is None else col[r]
+                                           for col in columns])
+    ref_path = os.path.join(d, 'ref.csv')
+    write(ref_path, c['ref'])
+    expect = c['ref'] == c['act']
+    out.label('entry:csv-reference', 'csv-edit:' + c['edit'],
+              'expect:' + ('pass' if expect else 'fail'),
+              'actual-as:' + c['actual_as'])
+    out.nontrivial = any(v in ('NA', 'n/a', 'N/A', 'null', 'None', 'nan',
+                               '#N/A') or v is None
+                         for col in c['ref'] + c['act'] for v in col)
+    rec = Recorder()
+    rt = ReferenceTest(rec)
+    rt.pandas.tmp_dir = os.path.join(d, 'tmp')
+    os.makedirs(rt.pandas.tmp_dir)
+    rt.pandas.verbose = False
+    if c['actual_as'] == 'csv':
+        act_path = os.path.join(d, 'act.csv')
+        write(act_path, c['act'])
+        ok, r = quiet(rt.assertOnDiskDataFrameCorrect, act_path, ref_path,
+                      check_types=False)
+    else:
+        frame = pd.DataFrame(dict(
+            [('id', pd.Series(c['ids'], dtype='int64'))]
+            + [(nm, pd.Series(col, dtype=object))
+               for (nm, col) in zip(c['names'], c['act'])]))
+        ok, r = quiet(rt.assertDataFrameCorrect, frame, ref_path,
+                      check_types=False)
+    if not ok:
+        out.violate('failure-is-an-assertion', r.bucket(),
+                    'CSV reference: %s' % r.detail())
+        return out
+    got_pass = not rec.failed
+    if got_pass != expect:
+        out.violate('verdict', 'csv-reference:%s:%s' % (
+            'should-pass' if expect else 'should-fail', c['edit']),
+            'CSV reference, actual as %s: comparison %s but the cells %s; '
+            'reference columns %r, actual columns %r'
+            % (c['actual_as'], 'passed' if got_pass else 'failed',
+               'agree' if expect else 'differ', c['ref'], c['act']))
+    return out
+
+
 def strategy(tier):
-    return case_strategy(tier)
+    return st.integers(0, 9).flatmap(
+        lambda k: csv_case() if k == 0 else case_strategy(tier))
 
 
 def valid_desc(d):
@@ -389,6 +505,8 @@ def valid_desc(d):
 
 
 def valid(case):
+    if 'csv' in case:
+        return valid_csv(case['csv'])
     if not (valid_desc(case.get('ref', {})) and valid_desc(
             case.get('act', {}))):
         return False
@@ -696,6 +814,8 @@ def quiet(fn, *a, **kw):
 
 
 def run(case, ctx):
+    if 'csv' in case:
+        return run_csv(case, ctx)
     import pandas as pd
     from tdda.referencetest.checkpandas import PandasComparison
     from tdda.referencetest.referencetest import ReferenceTest
